@@ -1093,14 +1093,18 @@ SDcreate(int32       fid,  /* IN: file ID */
         is_ragged = FALSE;
     }
 
+    /* refuse what would be refused after the dimensions have been added to the file */
+    if (rank > H4_MAX_VAR_DIMS || strlen(name) > H4_MAX_NC_NAME) {
+        HGOTO_ERROR(DFE_ARGS, FAIL);
+    }
+    if (handle->vars != NULL && handle->vars->count >= H4_MAX_NC_VARS) {
+        HGOTO_ERROR(DFE_EXCEEDMAX, FAIL);
+    }
+
     /* make fake dimensions which may or may not be over-ridden later */
     dims = malloc((size_t)rank * sizeof(int));
     if (dims == NULL) {
         HGOTO_ERROR(DFE_NOSPACE, FAIL);
-    }
-
-    if (rank > H4_MAX_VAR_DIMS) {
-        HGOTO_ERROR(DFE_ARGS, FAIL);
     }
 
     for (i = 0; i < rank; i++) {
